@@ -56,7 +56,12 @@ class World(object):
         np, r = self.np, self.rng
         U = self.rot()
         if c == "valid32":
-            U = U.astype(np.float32).astype(np.float64)
+            # float32 precision, as a float64 array or - what a detector pipeline hands over - as a float32 array
+            U = U.astype(np.float32)
+            if r.random() < 0.5:
+                U = U.astype(np.float64)
+        elif c == "valid64" and f in ("u_to_euler", "u_to_rod", "u_to_ubi") and r.random() < 0.3:
+            U = U.tolist()                      # a nested list is a matrix too
         elif c == "nonorth":
             U = U.copy()
             for _ in range(r.choice([1, 1, 3])):
